@@ -5,6 +5,7 @@
   header.
 -/
 import Sbepp.Lemmas.Decode
+import Sbepp.Lemmas.ResolveWF
 
 namespace Sbepp.Properties.C02
 open Sbepp Sbepp.Schema Sbepp.Observe
@@ -33,6 +34,19 @@ theorem decode_image (bo : ByteOrder) (m : NMessage) (hdr : List Nat) (root : LV
   rw [hrd, ← hh]
   exact ⟨decL bo "" m.level root _ buf hdr post hw hc rfl,
          by rw [endL_spec bo m.level.erase root _ buf hdr post hc rfl, List.length_append]⟩
+
+/-- **decode_image_accepted**: the same for every message of every schema the
+    validator model accepts — the layout hypothesis is discharged by
+    `resolve_wf` (accepted layouts have their leaves inside the block). -/
+theorem decode_image_accepted (s : SchemaDef) (md : MessageDef) (m : NMessage)
+    (hr : resolveMessage s md = .ok m) (hdr : List Nat) (root : LVal) (post : List Nat) (blOff blSize : Nat)
+    (hh : hdr.length = m.hdrSize) (hb : blOff + blSize ≤ hdr.length)
+    (hc : ConfL s.byteOrder m.level.erase root (get s.byteOrder (slice hdr blOff blSize))) :
+    let buf := hdr ++ flattenL s.byteOrder m.level.erase root ++ post
+    modelL s.byteOrder buf "" m.level m.hdrSize (rd s.byteOrder buf blOff blSize) = specL s.byteOrder "" m.level root
+    ∧ endL s.byteOrder buf m.level.erase m.hdrSize (rd s.byteOrder buf blOff blSize)
+        = (hdr ++ flattenL s.byteOrder m.level.erase root).length :=
+  decode_image s.byteOrder m hdr root post blOff blSize (resolve_wf s md m hr).1 hh hb hc
 
 /-- a scalar written in the schema's byte order reads back bit-exactly (this is
     what `set_primitive`/`get_primitive` do: native copy or byte reversal);
